@@ -117,7 +117,8 @@ def fill(claim, NA):
 		  "Theorems (Props/C17.lean): the instance file refines a finite map name -> data: load_save_same, load_save_other (other instances preserved for replace/append/no-replace), "
 		  "load_save_new, save_noreplace, store_refines_map (every operation, hence every operation sequence, behaves as on the abstract map and returns the same result); "
 		  "keys_roundtrip (a dict survives any key codec whose decoder inverts its encoder; with a concrete non-inverting codec the example shows integer keys coming back as strings); "
-		  "table_aligned and sorted_columns_keep_labels (header/row built from one column list; key-sorting keeps each value with its key). "
+		  "table_aligned and sorted_columns_keep_labels (header/row built from one column list; key-sorting keeps each value with its key); attr_roundtrip + attr_missing_default "
+		  "(a plain attribute written by to_dict comes back from from_dict with its exact value, 0 and None included: the key's presence decides, not the value's truthiness). "
 		  "Tie: (a) to_dict->json->from_dict and save_instance/load_instance round trips of random single-/multi-product networks with node-, product- and (node,product)-level "
 		  "attributes, with and without saved state variables: deep_equal_to, an independent field-wise comparison, original unchanged, identical trajectories under one seed; "
 		  "(b) save/replace/load sequences on one file vs the Lean store model (exact); (c) every cell of the results CSV vs the state variable its header names.",
